@@ -434,8 +434,64 @@ func crcTableVar(p *core.Program) (name *ast.Ident, lit *ast.CompositeLit) {
 	return nil, nil
 }
 
+// crcStdTable: the package-level variable of util/hash that IS the standard library's IEEE table
+// (var table = crc32.IEEETable, or crc32.MakeTable(crc32.IEEE)).
+func crcStdTable(p *core.Program) *ast.Ident {
+	pk := p.Pkg("util/hash")
+	if pk == nil {
+		return nil
+	}
+	for _, f := range pk.Syntax {
+		if core.IsCanaryFile(p.Fset.Position(f.Pos()).Filename) {
+			continue
+		}
+		for _, d := range f.Decls {
+			gd, ok := d.(*ast.GenDecl)
+			if !ok || gd.Tok != token.VAR {
+				continue
+			}
+			for _, sp := range gd.Specs {
+				vs := sp.(*ast.ValueSpec)
+				for i, nm := range vs.Names {
+					if i >= len(vs.Values) {
+						continue
+					}
+					v := ast.Unparen(vs.Values[i])
+					if st, ok := v.(*ast.StarExpr); ok {
+						v = ast.Unparen(st.X)
+					}
+					isStd := func(sel *ast.SelectorExpr, name string) bool {
+						id, ok := ast.Unparen(sel.X).(*ast.Ident)
+						if !ok || sel.Sel.Name != name {
+							return false
+						}
+						pn, ok := pk.TypesInfo.Uses[id].(*types.PkgName)
+						return ok && pn.Imported().Path() == "hash/crc32"
+					}
+					switch x := v.(type) {
+					case *ast.SelectorExpr:
+						if isStd(x, "IEEETable") {
+							return nm
+						}
+					case *ast.CallExpr:
+						if fsel, ok := x.Fun.(*ast.SelectorExpr); ok && isStd(fsel, "MakeTable") && len(x.Args) == 1 {
+							if asel, ok := ast.Unparen(x.Args[0]).(*ast.SelectorExpr); ok && isStd(asel, "IEEE") {
+								return nm
+							}
+						}
+					}
+				}
+			}
+		}
+	}
+	return nil
+}
+
 func crcTableName(p *core.Program) string {
 	if nm, _ := crcTableVar(p); nm != nil {
+		return nm.Name
+	}
+	if nm := crcStdTable(p); nm != nil {
 		return nm.Name
 	}
 	return "table"
@@ -471,6 +527,13 @@ func checkCRCTable(p *core.Program, r *core.Report, rule string) {
 			} else {
 				r.OK(rule, c, p.Pos(e.Pos()), "")
 			}
+		}
+		return
+	}
+	if nm := crcStdTable(p); nm != nil {
+		// the standard library's table is the CRC-32/IEEE table by definition (trusted, like strconv)
+		for k := 0; k < 256; k++ {
+			r.OK(rule, fmt.Sprintf("util/hash.table[%d]", k), p.Pos(nm.Pos()), "entry of hash/crc32.IEEETable")
 		}
 		return
 	}
